@@ -40,6 +40,32 @@ type scenario struct {
 	extra  func() J
 	wrapCtx func(ctx context.Context) context.Context
 	flush  func() // stack-specific clean-up (e.g. a Broadcast to flush leaked helpers)
+	settle func() // real-time scenarios (no bubble): how to wait for quiescence after a step
+}
+
+// wait for quiescence: inside a bubble synctest.Wait(); in real time the scenario's settle function
+func (s *scenario) quiesce() {
+	if s.settle != nil {
+		s.settle()
+		return
+	}
+	synctest.Wait()
+}
+
+// settleRealTime polls until the observable state has not changed for `quiet`, at most `max`.
+func (s *scenario) settleRealTime(quiet, max time.Duration) {
+	deadline := time.Now().Add(max)
+	last := canonV(s.observe())
+	stableSince := time.Now()
+	for time.Now().Before(deadline) {
+		time.Sleep(200 * time.Microsecond)
+		cur := canonV(s.observe())
+		if cur != last {
+			last, stableSince = cur, time.Now()
+		} else if time.Since(stableSince) >= quiet {
+			return
+		}
+	}
 }
 
 func newScenario(t testing.TB, c *controller, names []string) *scenario {
@@ -156,7 +182,7 @@ func (s *scenario) apply(st schedStep) error {
 	default:
 		return fmt.Errorf("unknown step %q", st.A)
 	}
-	synctest.Wait()
+	s.quiesce()
 	return nil
 }
 
